@@ -87,7 +87,7 @@ theorem fmtLiteral_plain (cap : Bool) (c : Cluster) (h : PlainBs c) :
   induction c with
   | nil => simp
   | cons g gs ih =>
-    obtain ⟨s, _, _, rfl⟩ := h g List.mem_cons_self
+    obtain ⟨s, _, _, _, rfl⟩ := h g List.mem_cons_self
     have : (Grapheme.ofStr s).reps.isEmpty = true := by simp [Grapheme.ofStr, Grapheme.reps]
     simp only [List.flatMap_cons, this, Bool.not_true, Bool.false_eq_true, ite_false, fmtGrapheme_plain, value_ofStr]
     rw [ih (fun x hx => h x (List.mem_cons_of_mem _ hx))]
@@ -102,7 +102,7 @@ theorem lex_literal (cap : Bool) (c : Cluster) (h : PlainBs c) :
   | nil => intro f rest st al co; simp [flat, R_nil]
   | cons g gs ih =>
     intro f rest st al co
-    obtain ⟨s, _, hb, rfl⟩ := h g List.mem_cons_self
+    obtain ⟨s, _, hb, _, rfl⟩ := h g List.mem_cons_self
     have hgs : PlainBs gs := fun x hx => h x (List.mem_cons_of_mem _ hx)
     have hlen : f + (flat (Grapheme.ofStr s :: gs)).length = (f + (flat gs).length) + s.length := by
       simp [flat, value_ofStr]; omega
